@@ -939,7 +939,9 @@ class MirrorRun:
                 last_mut = 'random'
             elif o == 'sedit':
                 # the caller edits, in place, an array that an earlier read of dm.surface returned
-                ordinal, arr = self.held[op['j']]
+                ordinal, arr, seen = self.held[op['j']]
+                if not np.array_equal(np.asarray(arr), seen):
+                    self.bad.append(('returned-surface-overwritten', '%s: an array returned by dm.surface no longer holds what the caller last saw in it (changed behind the caller\'s back after %s)' % (kind, last_mut)))
                 mode = op.get('mode', 'item')
                 if mode == 'item':
                     arr[op['i']] = op['v']
@@ -954,6 +956,7 @@ class MirrorRun:
                     self.emit('C14 mirror sedit %d %d %s' % (ordinal, i, rat(x)), 'ok')
                 idx = len(self.lines)
                 now = np.asarray(arr).copy()
+                self.held[op['j']][2] = now
                 if exact:
                     self.emit('C14 mirror held %d' % ordinal, 'ok ' + fmt_vec(now))
                 else:
@@ -1010,7 +1013,7 @@ class MirrorRun:
                 surf_now = np.asarray(surf_obj).copy()
                 if how != 'surface' and not np.all(np.abs(surf_now - ref) <= TOL * max(1.0, float(np.abs(ref).max(initial=0)))):
                     self.bad.append(('stale-surface after-' + (last_mut if not self.sedited else 'edit-of-returned-surface'), '%s: dm.surface after %s is not (influence functions)·(current actuators)' % (kind, last_mut)))
-                self.held.append((self.nreads, surf_obj))
+                self.held.append([self.nreads, surf_obj, surf_now.copy()])
                 self.nreads += 1
                 if exact:
                     self.emit('C14 mirror read', 'ok ' + fmt_vec(surf_now))
